@@ -50,7 +50,7 @@ PROPS.update({
     ),
     "C02": dict(
         family="conv", variants=DEFAULT_MODE_VARIANTS,
-        theorems=T("C02", "kernels_are_model", "conversion_loops_are_model", "convert_eq_reference", "string_eq_reference", "check_throws_iff", "check_throws_iff_malformed", "string_check",
+        theorems=T("C02", "kernels_are_model", "conversion_loops_are_model", "translated_repairer_is_model", "convert_eq_reference", "string_eq_reference", "check_throws_iff", "check_throws_iff_malformed", "string_check",
                    "subst_never_throws", "subst_output", "string_subst_revalidates", "string_wellformed_unchanged", "tolerated_same_decision",
                    "isolation_utf8", "subst_output_valid_utf32_partial", "subst_output_invalid_utf16_witness", "subst_output_invalid_utf32_witness"),
         partial="'substitute_invalid output always passes check_validity' is proved for ST::string/UTF-8 output unconditionally and for UTF-32 output under the "
@@ -63,14 +63,14 @@ PROPS.update({
         exhaustive={"quick": False, "thorough": False},
     ),
     "C03": dict(
-        family="conv", theorems=T("C03", "decode_steps_read_inside", "decode_steps_progress", "translated_decoders_are_model", "translated_writers_are_model", "translated_measure_is_model", "translated_fill_is_model", "translated_fill_is_model_utf16", "translated_validator_is_model", "translated_two_pass_safe_utf16_utf8", "translated_two_pass_safe_utf8_utf16", "translated_two_pass_safe_utf32_utf8", "convert_total", "convert_null", "measure_eq_fill", "fill_le_measure", "size_is_reference", "flags_never_collide",
+        family="conv", theorems=T("C03", "decode_steps_read_inside", "decode_steps_progress", "translated_decoders_are_model", "translated_writers_are_model", "translated_measure_is_model", "translated_fill_is_model", "translated_fill_is_model_utf16", "translated_validator_is_model", "translated_repairer_is_model", "translated_two_pass_safe_utf16_utf8", "translated_two_pass_safe_utf8_utf16", "translated_two_pass_safe_utf32_utf8", "convert_total", "convert_null", "measure_eq_fill", "fill_le_measure", "size_is_reference", "flags_never_collide",
                                   "string_total", "string_to_total"),
         partial="stores of the real machine are observed by ASan/UBSan on every generated case, not proved. Loads: the decoding steps extract_utf8 / extract_utf16 "
                 "are translated from the C++ on every run (tools/gen_kernels.py) into functions whose loads fault outside the source, and decode_steps_read_inside "
                 "proves no load of any step reaches `end`, for every source and position; the twelve measure/convert pairs, the Latin-1 loops and "
                 "validate_utf8 are translated as whole loops too and proved equal to the model (translated_measure_is_model, translated_fill_is_model, "
                 "translated_validator_is_model: in particular they complete without a load outside the source), and translated_two_pass_safe_* state the "
-                "two-pass bound on the translated code itself; cleanup_utf8 and the public wrappers (null/empty shortcut, allocate, raise) stay hand-modelled and "
+                "two-pass bound on the translated code itself; cleanup_utf8 is translated and bridged as well (translated_repairer_is_model); the public wrappers (null/empty shortcut, allocate, raise) stay hand-modelled and "
                 "carried by the correspondence run with exact-size heap inputs",
         rule="the C02 generators (arbitrary garbage in all four source encodings, every truncation point of well-formed text, null pointers with zero length), each "
              "input in an exact-size heap block under ASan+UBSan; observed: exception kind or (size(), units, NUL terminator); aborts/hangs attributed per case",
@@ -120,7 +120,7 @@ MANIFEST_TEXT = {
         design_ref="DESIGN.md section 3, C01",
         note="Trusted: Lean kernel + 3 standard axioms, Spec/Unicode.lean as the meaning of 'standard encoding', the conv harness (ASan/UBSan) and its route table. "
              "wchar_t routes are the UTF-32 routes on this platform; NUL-terminated routes see text up to the first zero unit (U+0000 goes through sized routes).",
-        technique="Lean 4 proof (refinement to a reference transcoder) + exhaustive per-scalar differential correspondence over every route"),
+        technique="Lean 4 proof (refinement to a reference transcoder); model tied to the code twice: kernels and conversion loops translated from the C++ on every run (clang AST -> Lean) with bridge theorems generated = model, and exhaustive per-scalar differential correspondence over every route"),
     "C02": dict(
         text="Theorems (arbitrary units of the right width, every mode): convert = reference transcoding defined from an independent left-to-right segmentation "
              "(tolerated forms are sequences; stray continuation, short lead, F8-FF, unpaired surrogate, UTF-32 > 10FFFF are malformed units); check throws iff a unit is "
@@ -129,7 +129,7 @@ MANIFEST_TEXT = {
              "negation witnesses are recorded findings, the partial theorem excludes them. Default-mode plumbing is checked over three ST_DEFAULT_VALIDATION builds.",
         design_ref="DESIGN.md section 3, C02",
         note="Trusted as C01. Reading chosen: assume_valid on malformed input is only required to be safe (C03), not to produce a particular text.",
-        technique="Lean 4 proof (refinement to a segmentation-based reference) + exhaustive short-string differential correspondence in three default-mode builds"),
+        technique="Lean 4 proof (refinement to a segmentation-based reference); model tied to the code twice: decoders, conversion loops, validate_utf8 and cleanup_utf8 translated from the C++ on every run with bridge theorems generated = model, and exhaustive short-string differential correspondence in three default-mode builds"),
     "C03": dict(
         text="Theorems (every input of fewer than 2^28 units in each source encoding, every mode): a conversion returns a buffer or throws unicode_error - never an "
              "assertion, out-of-bounds store, unwritten tail or other exception; the fill pass stores exactly the measured number of units and never more on the throwing "
@@ -137,7 +137,7 @@ MANIFEST_TEXT = {
              "this check and repaired. Machine-level reads/writes are observed under ASan with exact-size heap inputs, not proved.",
         design_ref="DESIGN.md section 3, C03",
         note="Trusted as C01; the decoders are modelled over lists, so an out-of-range *read* is expressible only in the harness (ASan), which is named as the unproved part.",
-        technique="Lean 4 proof of two-pass consistency and totality + differential correspondence under ASan/UBSan with abort/hang attribution"),
+        technique="Lean 4 proof of two-pass consistency and totality, also stated on the loops translated from the C++ on every run (no load outside the source, fill <= measure) + differential correspondence under ASan/UBSan with abort/hang attribution"),
     "C14": dict(
         text="Theorems (Lean kernel, all byte arrays by induction): the model of hex_encode/base64_encode equals the RFC 4648 encoding written with / and %, "
              "lengths are 2n and 4*ceil(n/3), and both decoder forms (and upper-case hex) return the original bytes. The model is tied to the code by "
